@@ -106,6 +106,64 @@ func (c *Ctx) intrinsicPattern(s *State, fr *Frame, x ssa.Instruction, fn *ssa.F
 		}
 		return nil, false
 	}
+	// sort.Search(n, f) with f a function literal under contract: the binary search returns an index i in [0, n] with
+	// f(i) (if i < n) and !f(i-1) (if i > 0) — the loop invariant of the standard library's implementation, which
+	// holds for every predicate; minimality over all indices follows only for monotone predicates and is NOT assumed.
+	if full == "sort.Search" && len(args) == 2 {
+		if cl, ok := args[1].(ClosureV); ok {
+			if pf, _ := cl.Fn.(*ssa.Function); pf != nil {
+				if fc := c.eng.contractFor(pf); fc != nil {
+					c.assumptions["sort.Search returns i in [0,n] with f(i) if i<n and !f(i-1) if i>0 (binary-search invariant of the Go standard library)"] = true
+					n := args[0].(Scalar)
+					ii, _ := isIntType(types.Typ[types.Int])
+					i := Scalar{c.freshConst(s, "searchidx", c.ar.idxSort()), c.ar.idxSort(), types.Typ[types.Int]}
+					c.assume(s, fmt.Sprintf("(and %s %s)", c.idxCmp(token.LEQ, c.ar.idx(0), i.T), c.idxCmp(token.LEQ, i.T, n.T)))
+					bind := func() {
+						c.extraContractVars = map[string]Val{}
+						blanks := 0
+						for k, fv := range pf.FreeVars {
+							name := fv.Name()
+							if name == "_" {
+								name = fmt.Sprintf("_%d", blanks)
+								blanks++
+							}
+							if k < len(cl.Bindings) {
+								c.extraContractVars[name] = SrcAddr{P: cl.Bindings[k], Ty: fv.Type()}
+							}
+						}
+					}
+					names := []string{pf.Params[0].Name()}
+					// at i (guarded by i < n): evaluate the contract on a forked copy of the facts via implication
+					apply := func(arg Scalar, guard string, want bool) {
+						s2 := s.clone()
+						c.assume(s2, guard) // the predicate is only evaluated at indices inside [0, n)
+						base := len(s2.cmds)
+						bind()
+						r := c.applyContract(s2, fr, x, fc, relFuncName(pf), names, "", []Val{arg}, pf.Signature, pf.Pkg).(Scalar)
+						// transfer the facts established on s2 (beyond s) under the guard
+						var facts []string
+						for _, cmd := range s2.cmds[base:] {
+							if strings.HasPrefix(cmd, "(assert ") {
+								facts = append(facts, strings.TrimSuffix(strings.TrimPrefix(cmd, "(assert "), ")"))
+							} else {
+								s.cmds = append(s.cmds, cmd) // declarations
+							}
+						}
+						res := r.T
+						if !want {
+							res = "(not " + r.T + ")"
+						}
+						facts = append(facts, res)
+						c.assume(s, fmt.Sprintf("(=> %s (and %s))", guard, strings.Join(facts, " ")))
+					}
+					apply(i, c.idxCmp(token.LSS, i.T, n.T), true)
+					im1, _ := c.ar.binop(token.SUB, i.T, c.ar.litI(1, ii), ii, ii)
+					apply(Scalar{im1, c.ar.idxSort(), types.Typ[types.Int]}, c.idxCmp(token.GTR, i.T, c.ar.idx(0)), false)
+					return i, true
+				}
+			}
+		}
+	}
 	// slices.SortFunc on a statically 2-element slice with a comparator under contract: pdqsort's insertion-sort base
 	// case swaps iff cmp(s[1], s[0]) < 0 (stdlib implementation detail, recorded as an assumption).
 	if os.Getenv("GOVC_DEBUG") != "" && strings.Contains(full, "SortFunc") {
